@@ -4,6 +4,9 @@
 import abc
 
 import attr
+import six
+
+from cryptodatahub.common.exception import InvalidValue
 
 from cryptoparser.common.parse import ParsableBase, ParserBinary, ComposerBinary
 from cryptoparser.common.exception import NotEnoughData
@@ -34,13 +37,18 @@ class SshRecordBase(ParsableBase):
         parser.parse_numeric('packet_length', 4)
         if parser['packet_length'] > parser.unparsed_length:
             raise NotEnoughData(parser['packet_length'] - parser.unparsed_length)
-        parser.parse_numeric('padding_length', 1)
 
-        parser.parse_parsable('packet', cls._get_variant_class())
+        packet_parser = ParserBinary(parser.unparsed[:parser['packet_length']])
+        try:
+            packet_parser.parse_numeric('padding_length', 1)
+            packet_parser.parse_parsable('packet', cls._get_variant_class())
+            packet_parser.parse_raw('padding', packet_parser['padding_length'])
+        except NotEnoughData as e:
+            six.raise_from(InvalidValue(parser['packet_length'], cls, 'packet_length'), e)
+        if packet_parser.unparsed_length:
+            raise InvalidValue(parser['packet_length'], cls, 'packet_length')
 
-        parser.parse_raw('padding', parser['padding_length'])
-
-        return cls(packet=parser['packet']), parser.parsed_length
+        return cls(packet=packet_parser['packet']), parser.parsed_length + parser['packet_length']
 
     def compose(self):
         body_composer = ComposerBinary()
